@@ -279,6 +279,11 @@ def _get_best_taylor_coefficients(bs, rs, m, max_m1m2):
     mvec = np.arange(m)
     if len(extrap) > 2:
         all_coefs, all_errors = dea3(extrap[:-2], extrap[1:-1], extrap[2:])
+        # Each estimate depends on five successive circles: add the rounding error of the FFT on the smallest
+        # of them, otherwise a coefficient that underflows to 0 on the small circles gets an error estimate of 0.
+        rs_all = np.asarray(rs, dtype=float)
+        r_min = np.min([rs_all[i:len(rs_all) - 4 + i] for i in range(5)], axis=0)
+        all_errors = all_errors + EPS / np.power(r_min[:, None], mvec) * max_m1m2()
         steps = np.atleast_1d(rs[4:])[:, None] * mvec
         # pylint: disable=protected-access
         coefs, info = _Limit._get_best_estimate(all_coefs, all_errors, steps, (m,))
